@@ -184,7 +184,7 @@ def klass(verdict):
     t = verdict.split(" ")
     if t[0] == "A":
         return "A"
-    if t[0] in ("D", "X") and len(t) > 1:
+    if t[0] in ("D", "X", "V") and len(t) > 1:
         return t[0] + t[1]
     return "E"
 
@@ -380,7 +380,7 @@ def check(pid, tier, seed):
         if f is not None:
             known_hit.setdefault(f["id"], (f, l))
             continue
-        (unlisted_p0 if klass(v) in ("D0", "X0") else unlisted_d1).append((ename, l, v))
+        (unlisted_p0 if klass(v) in ("D0", "X0", "V0") else unlisted_d1).append((ename, l, v))
     idx = 0
     for (ename, l, v) in unlisted_p0[:3]:
         idx += 1
@@ -446,7 +446,7 @@ def search(pid, cfg, ename, line, wd, seed, findings):
         lines = [l.rstrip("\n") for l in open(cases)]
         verd = judge_lines(lines, wd, "search")
         for l, v in zip(lines, verd):
-            if klass(v) in ("D0", "X0") and match_finding(pid, l, findings) is None:
+            if klass(v) in ("D0", "X0", "V0") and match_finding(pid, l, findings) is None:
                 try:
                     sl, _ = shrink(l, klass(v), wd)
                 except Exception:  # noqa
